@@ -593,7 +593,13 @@ func (o *objectGoReflect) reflectValue() reflect.Value {
 
 func (o *objectGoReflect) setReflectValue(v reflect.Value) {
 	o.fieldsValue = v
-	o.origValue = v
+	if o.origValue.Kind() == reflect.Ptr {
+		// the wrapper was made from a pointer (to the slot it refers to): it keeps being one, so that Export() and
+		// the fmt.Stringer / error implementations found through the pointer at creation time stay valid
+		o.origValue = v.Addr()
+	} else {
+		o.origValue = v
+	}
 	o.methodsValue = v.Addr()
 	// references to nested values handed out earlier are part of the value that moves
 	for name, w := range o.valueCache {
